@@ -728,6 +728,17 @@ func checkC18(c *Ctx) {
 		}
 		jobs = append(jobs, Job{S: s, Rig: "ws", Judge: "ws-traffic-cfg", Tag: "c18-traffic"})
 	}
+	// the shortest IMSIs (one to three MSIN digits): registration and deregistration only, because the
+	// emulator takes the PDU session identity from the last four digits of the SUPI
+	rs := root.Sub("short-imsi")
+	for i := 0; i < nT/5; i++ {
+		o := GenOpts{Profile: "c18-short", Mode: "test", MinReg: 1, MaxReg: 4, MaxMSIN: 3, Latency: "zero", ExplicitUEs: 4}
+		s := Gen(rs.Uint64(), o)
+		if i%3 != 0 {
+			s.Rig = map[string]interface{}{"config_yaml": shuffleYAML(rs.Sub(fmt.Sprint("y", i)), s.Config)}
+		}
+		jobs = append(jobs, Job{S: s, Rig: "ws", Judge: "ws-test-cfg", Tag: "c18-short"})
+	}
 	// a refused first dial: whatever the program does next, it may not open an association with
 	// other parameters than the configured ones
 	for i := 0; i < nT/10; i++ {
